@@ -50,6 +50,10 @@ structure SchedInv (s : State) : Prop where
       Disjoint2 o₁ o₂
   /-- a busy AGV's arrival / waiting time is not in the past -/
   agvPending : ∀ t ∈ s.transports, t.st ≠ .idle → ∀ o, t.occ = .at o → s.time ≤ o
+  /-- an idle AGV and an AGV in its drop-off outage claim no job -/
+  freeNoClaim : ∀ t ∈ s.transports, t.st = .idle ∨ t.st = .outage → t.job = none
+  /-- the transition parked in a time dependency is a "keep waiting" transition -/
+  depWaiting : ∀ t ∈ s.transports, ∀ b j tr, t.occ = .dep b j tr → tr.new = .t .waitingpickup
 
 /-- hypotheses on sampled values: every duration, travel, setup and outage time is non-negative
 (the code clamps stochastic samples at 0; the DSL grammar only admits `\\d+` for job durations) -/
